@@ -33,7 +33,7 @@ pub struct Sequence {
 
 /// shapes: zoo problems, and table models with M up to 8, P up to 10 including dead
 /// parameters (identically zero derivative matrices) and zero derivative columns
-pub fn gen_sequence(rng: &mut Rng, nmax: usize, len: usize, hostile: bool) -> Sequence {
+pub fn gen_sequence(rng: &mut Rng, nmax: usize, len: usize, hostile: bool, is_f32: bool) -> Sequence {
     let table = rng.chance(0.45);
     let (spec, alpha_ref) = if table {
         let m = rng.int(1, 8);
@@ -41,22 +41,25 @@ pub fn gen_sequence(rng: &mut Rng, nmax: usize, len: usize, hostile: bool) -> Se
         let p = rng.int(1, 10);
         let s = rng.int(1, 4);
         let base = Mat::from_fn(n, m, |_, _| rng.normal());
+        // badly scaled parameter vectors: parameter k lives at scale pscale[k] (slopes compensate)
+        let badly_scaled = rng.chance(0.35);
+        let pscale: Vec<f64> = (0..p).map(|_| if badly_scaled { 10f64.powf(rng.range(-9.0, 3.0).round()) } else { 1.0 }).collect();
         let slope: Vec<Mat> = (0..p)
-            .map(|_| {
+            .map(|k| {
                 if rng.chance(0.25) {
                     Mat::zeros(n, m) // dead parameter
                 } else {
                     let dead_col = if rng.chance(0.4) { Some(rng.below(m)) } else { None };
-                    Mat::from_fn(n, m, |_, j| if Some(j) == dead_col { 0.0 } else { rng.normal() * 0.3 })
+                    Mat::from_fn(n, m, |_, j| if Some(j) == dead_col { 0.0 } else { rng.normal() * 0.3 / pscale[k] })
                 }
             })
             .collect();
         let y = Mat::from_fn(n, s, |_, _| rng.normal() * 3.0);
         let w = if rng.chance(0.5) { Some((0..n).map(|_| rng.range(0.3, 2.0) * rng.sign()).collect()) } else { None };
-        let alpha0: Vec<f64> = (0..p).map(|_| rng.normal()).collect();
+        let alpha0: Vec<f64> = (0..p).map(|k| rng.normal() * pscale[k]).collect();
         (
             ProblemSpec { model: ModelKind::Table { n, m, p, base, slope }, alpha0: alpha0.clone(), y, w, eps: None, mrhs: s > 1 || rng.chance(0.3), par: rng.chance(0.4) },
-            alpha0,
+            pscale,
         )
     } else {
         let g = gen_problem(rng, &GenOpts { nmax, smax: 4, ..Default::default() });
@@ -67,7 +70,8 @@ pub fn gen_sequence(rng: &mut Rng, nmax: usize, len: usize, hostile: bool) -> Se
     let mut ops = Vec::new();
     let draw = |rng: &mut Rng| -> Vec<f64> {
         if table {
-            (0..np).map(|_| rng.normal() * 2.0).collect()
+            // alpha_ref holds the per-parameter scales of a table model
+            (0..np).map(|k| rng.normal() * 2.0 * alpha_ref[k]).collect()
         } else {
             wide_alpha(rng, &alpha_ref)
         }
@@ -93,6 +97,22 @@ pub fn gen_sequence(rng: &mut Rng, nmax: usize, len: usize, hostile: bool) -> Se
             6 => ops.push(Op::SetFail(draw(rng), rng.below(2) as u64)),
             7 | 8 => ops.push(Op::Query(rng.int(1, 3))),
             9 => ops.push(Op::JacFail(rng.below(np))),
+            10 => {
+                // a run of one-ulp nudges of a single parameter
+                let k = rng.below(np);
+                for _ in 0..rng.int(1, 4) {
+                    let mut a = prev.clone();
+                    a[k] = if !a[k].is_finite() {
+                        a[k]
+                    } else if is_f32 {
+                        f32::from_bits((a[k] as f32).to_bits().wrapping_add(1)) as f64
+                    } else {
+                        f64::from_bits(a[k].to_bits().wrapping_add(1))
+                    };
+                    prev = a.clone();
+                    ops.push(Op::Set(a));
+                }
+            }
             _ => ops.push(Op::Churn(rng.next_u64())),
         }
         if rng.chance(0.5) {
@@ -235,7 +255,7 @@ pub fn run_sequence<T: Sc>(seq: &Sequence, fresh_twin: bool) -> SeqResult {
 fn twin_case(rng: &mut Rng, case: u64, out: &mut CaseOut, len: usize) {
     let stream = "history-twin";
     let f32_ = case % 3 == 0;
-    let seq = gen_sequence(rng, if f32_ { 32 } else { 64 }, len, case % 5 == 0);
+    let seq = gen_sequence(rng, if f32_ { 32 } else { 64 }, len, case % 5 == 0, f32_);
     let r = if f32_ { run_sequence::<f32>(&seq, true) } else { run_sequence::<f64>(&seq, true) };
     out.evals += r.observations;
     if r.states_with_values > 0 {
@@ -260,7 +280,7 @@ fn contains_poison<T: Sc>(bits: &[u64]) -> bool {
 pub fn poison_case(rng: &mut Rng, case: u64, out: &mut CaseOut, ops: &OpLog) {
     let stream = "poison";
     let f32_ = case % 3 == 0;
-    let seq = gen_sequence(rng, if f32_ { 32 } else { 64 }, 12, false);
+    let seq = gen_sequence(rng, if f32_ { 32 } else { 64 }, 12, false, f32_);
     ops.op("poison modes 1,2,3");
     let mut results: Vec<Vec<u64>> = Vec::new();
     let before = crate::poison::BLOCKS_POISONED.load(std::sync::atomic::Ordering::Relaxed);
@@ -295,7 +315,7 @@ pub fn sanitizer_workload(seed: u64, cases: u64, nmax: usize, len: usize) -> (u6
     let mut sum = 0u64;
     for c in 0..cases {
         let mut rng = Rng::keyed(seed, "C10/sanitizer", c);
-        let seq = gen_sequence(&mut rng, nmax, len, false);
+        let seq = gen_sequence(&mut rng, nmax, len, false, c % 3 == 0);
         let r = if c % 3 == 0 { run_sequence::<f32>(&seq, false) } else { run_sequence::<f64>(&seq, false) };
         obs += r.observations;
         for b in &r.bits {
@@ -344,9 +364,9 @@ pub fn run(ctx: &Ctx) {
     ctx.assume("bitwise equality is demanded because the property is about identity/determinism of one deterministic computation on the same stored data");
     let t = ctx.tier;
     let len = t.pick(12, 40);
-    ctx.run_cases("history-twin", t.pick(2500, 40000), t.pick(15.0, 150.0), |r, c, o| twin_case(r, c, o, len));
+    ctx.run_cases("history-twin", t.pick(8000, 40000), t.pick(15.0, 150.0), |r, c, o| twin_case(r, c, o, len));
     let exe = exe_for_profile("checked");
-    run_in_children(ctx, &exe, "checked", "poison", t.pick(1600, 24000), 20.0, t.pick(60.0, 300.0));
+    run_in_children(ctx, &exe, "checked", "poison", t.pick(3200, 24000), 20.0, t.pick(60.0, 300.0));
     if t == Tier::Thorough && ctx.replay.is_none() {
         sanitizers(ctx);
     } else {
